@@ -59,6 +59,9 @@ func tfSchema() *schema.BodySchema {
 				"opts": {Type: schema.BlockTypeObject, MaxItems: 1, Body: &schema.BodySchema{Attributes: map[string]*schema.AttributeSchema{
 					"flag": {IsOptional: true, Constraint: schema.LiteralType{Type: cty.Bool}},
 					"via":  {IsOptional: true, Constraint: schema.AnyExpression{OfType: cty.String}},
+				}, Blocks: map[string]*schema.BlockSchema{
+					// a block type two levels down, under a block WITHOUT dependent bodies (dynamic blocks are propagated to it)
+					"sub": {Body: &schema.BodySchema{Attributes: map[string]*schema.AttributeSchema{"s": {IsOptional: true, Constraint: schema.LiteralType{Type: cty.String}}}}},
 				}}},
 				"item": {Type: schema.BlockTypeList, Body: &schema.BodySchema{Attributes: map[string]*schema.AttributeSchema{
 					"val":   {IsOptional: true, Constraint: schema.AnyExpression{OfType: cty.String}},
@@ -351,7 +354,9 @@ func (g *tfGen) resource(i int) {
 		fmt.Fprintf(&g.sb, "  %s = %s\n", attr, val)
 		d.Attrs = append(d.Attrs, attr)
 	}
+	hasCount := false
 	if r.Intn(3) == 0 {
+		hasCount = true
 		cv := "2"
 		if r.Intn(2) == 0 {
 			cv = g.refText("count", "variable", true)
@@ -451,7 +456,7 @@ func (g *tfGen) resource(i int) {
 	{
 		// a set-typed attribute in every block, one attribute of another collection constraint kind in turn, and a
 		// self reference to one of the two (no random draw)
-		ck := [][2]string{{"clist", `["a"]`}, {"cmap", `{ k = "v" }`}, {"cobj", `{ a = "v" }`}, {"ctup", `["a", 1]`}, {"cany", `["a"]`}}[i%5]
+		ck := [][2]string{{"clist", `["a"]`}, {"cmap", `{ k = "v" }`}, {"cobj", `{ a = "v" }`}, {"ctup", `["a", 1]`}, {"cany", `["a"]`}}[(i+len(g.decls))%5]
 		fmt.Fprintf(&g.sb, "  cset = [\"a\", \"b\"]\n  %s = %s\n", ck[0], ck[1])
 		target := "self.cset"
 		if i%2 == 1 {
@@ -459,6 +464,11 @@ func (g *tfGen) resource(i int) {
 		}
 		g.refs = append(g.refs, TfRef{Addr: target, Attr: "cself", Declared: true, AdmitsRef: true})
 		fmt.Fprintf(&g.sb, "  cself = %s\n", target)
+	}
+	if i%2 == 0 && len(g.decls)%2 == 0 && !hasCount {
+		// a block-local name inside the count meta-argument (size is written in every even block; no random draw)
+		g.refs = append(g.refs, TfRef{Addr: "self.size", Attr: "count", Declared: true, AdmitsRef: true})
+		fmt.Fprintf(&g.sb, "  count = self.size\n")
 	}
 	if typ == "aws" {
 		fmt.Fprintf(&g.sb, "  zone = %q\n", "z1")
